@@ -1,7 +1,7 @@
 """C02 — derived group keys equal the MS-GKDI chain from any covering seed material."""
 from __future__ import annotations
 import hashlib, hmac, struct, uuid
-import prelude, gen, toycrypto
+import prelude, gen, toycrypto, refserver
 from check import canon_exc, hx
 
 MANIFEST = {
@@ -55,6 +55,15 @@ class SpecChain:
 
 def toy_kdf(secret, context, alg="sha512"):
     return toycrypto.stream(10 + toycrypto.HASH_ID[alg], [secret, LABEL, context, (64).to_bytes(4, "little")], 64)
+
+
+def wire_reply(env):
+    """the GetKey reply stub a server sends for this envelope: packed by the reference DC's packer, NDR64 wrapping by hand"""
+    f = {k: getattr(env, k) for k in ("version", "flags", "l0", "l1", "l2", "root_key_identifier", "kdf_algorithm", "kdf_parameters", "secret_algorithm",
+                                      "secret_parameters", "private_key_length", "public_key_length", "domain_name", "forest_name", "l1_key", "l2_key")}
+    wire = refserver.ReferenceDC.pack_envelope(f)
+    reply = struct.pack("<I", len(wire)) + b"\x00" * 4 + struct.pack("<Q", 0x20000) + struct.pack("<Q", len(wire)) + wire
+    return reply + b"\x00" * (-len(reply) % 4) + struct.pack("<I", 0)
 
 
 def run(ctx):
@@ -149,6 +158,18 @@ def run(ctx):
                     n_real += 1
                     if got != spec.K2[(r1, r2)]:
                         ctx.violation("derived L2 key differs from the MS-GKDI chain (real HMAC)", {"hash": hn, "envelope": [a, b], "request": [r1, r2]}, hx(got)[:32], hx(spec.K2[(r1, r2)])[:32])
+                    # the same seed material as it arrives from a server: packed by the reference DC's own packer (not the library's),
+                    # wrapped in the NDR64 GetKey reply, decoded by GetKey.unpack_response
+                    reply = wire_reply(env)
+                    rlog.reset_budget()
+                    try:
+                        got = g.compute_l2_key(h, r1, r2, g.GetKey.unpack_response(reply))
+                    except Exception as e:  # noqa
+                        got = ("raised " + type(e).__name__).encode()
+                    ctx.count("real_hmac_wire_cases")
+                    if got != spec.K2[(r1, r2)]:
+                        ctx.violation("L2 key derived from a GetKey reply differs from the MS-GKDI chain (real HMAC)",
+                                      {"hash": hn, "envelope": [a, b], "request": [r1, r2], "l2_key_present": bool(k2), "scenario": "wire"}, hx(got)[:32], hx(spec.K2[(r1, r2)])[:32])
     ctx.count("real_hmac_cases", n_real)
     through_cache(ctx, g, hashes)
 
@@ -278,7 +299,9 @@ def replay(ctx, payload):
     a, b = v["envelope"]
     r1, r2 = v["request"]
     root, sd, l0 = bytes(range(64)), b"\x01\x02\x03", 361
-    spec = SpecChain(lambda k, c: kbkdf_hmac("sha512", k, LABEL, c, 64), root, sd, l0)
+    hn = v.get("hash", "sha512")
+    hobj = {"sha1": hashes.SHA1(), "sha256": hashes.SHA256(), "sha384": hashes.SHA384(), "sha512": hashes.SHA512()}[hn]
+    spec = SpecChain(lambda k, c: kbkdf_hmac(hn, k, LABEL, c, 64), root, sd, l0)
     covered = max(a, b, r1, r2) <= 31 and (r1 < a or (r1 == a and r2 <= b))
     shapes = spec.envelopes(a, b) if max(a, b) <= 31 else [(b"\x11" * 64, b"\x22" * 64)]
     okall = True
@@ -286,7 +309,7 @@ def replay(ctx, payload):
         env = gen.make_env(l0=l0, l1=a, l2=b, l1_key=k1, l2_key=k2)
         with toycrypto.recording() as log:
             try:
-                got = g.compute_l2_key(hashes.SHA512(), r1, r2, env)
+                got = g.compute_l2_key(hobj, r1, r2, g.GetKey.unpack_response(wire_reply(env)) if v.get("scenario") == "wire" else env)
                 ok = covered and got == spec.K2[(r1, r2)]
             except ValueError:
                 ok = not covered
